@@ -186,6 +186,59 @@ def drain(net, limit=1500):
     return n
 
 
+def acks_across_wrap(run):
+    """the 16-bit datagram counter WRAPS while datagrams on both sides of the wrap are lost: both endpoints start 36..60
+    below the ring wrap (the model through unit conn_run_from); one small send with a callback per frame (unretried and
+    guaranteed alternating, both roles in turn); a fixed pattern loses chosen datagrams of the sender whose wire numbers
+    lie in [wrap-34, wrap+6] — each next to a datagram that arrives — so their fate is decided by ack fields the peer built
+    AFTER its ack number wrapped (ack = 1..32 naming pending datagrams 65504..65535 through ack_bits).  Same oracle as every
+    session: True means the peer application has the payload by then, exactly one call per send, False only after the
+    message time-out, guaranteed sends end with True, resolution accounting."""
+    RING = 65535
+    patterns = [[RING - 1], [RING - 2, RING], [RING - 20, RING - 10, RING - 4], [RING - 31, RING - 30, 2],
+                [RING - 33, RING - 1, 1, 3]]
+    cases, impl, mod = [], [], []
+    for k, lost in enumerate(patterns if run.thorough() else patterns[:3]):
+        for sender in ("client", "server"):
+            start = RING - run.rng.choice([36, 41, 47, 60])
+            cfg = {"loss": 0, "dup": 0, "reorder": 0, "tick": 600, "max_delay": 0, "delay": 0, "healed_delay": 0}
+            net = netsim.Net(run, run.rng, cfg, mtu=1500, seq0=[start, start])
+            viol = []
+            label = "wrap%d:%s" % (k, sender)
+            try:
+                net.drop_filter = lambda who, rec, s=sender, L=set(lost): who == s and rec["hdr"][2] in L
+                for i in range(110):
+                    net.send(sender, 12, 0 if i % 2 else -1, with_cb=True)
+                    net.step()
+                net.drop_filter = None
+                net.healed = True
+                for i in range(3 * T // cfg["tick"] + 30):
+                    net.step()
+                drain(net)
+                diffs = net.check_models()
+                stats = judge(net, label, cfg, 1500, viol)
+                seqs = [r["hdr"][2] for r in net.emitted[sender]]
+                if not (RING in seqs and 1 in seqs and all(x in seqs for x in lost)):
+                    raise RuntimeError("wrap session %s did not cross the wrap as planned (first %s, last %s)" % (label, seqs[:1], seqs[-1:]))
+            finally:
+                net.close()
+            for what, case in viol[:4]:
+                case = dict(case)
+                case["lost_datagram_numbers"] = lost
+                case["first_datagram_number"] = start
+                run.oracle_violation(what, case, "callbacks")
+            cases.append({"session": label, "lost": lost, "start": start, "first_difference": diffs[:1]})
+            impl.append("agree")
+            mod.append("agree" if not diffs else "differ")
+            run.count("sessions_across_the_wrap")
+            run.count("callbacks_true", stats["true"])
+            run.count("callbacks_false", stats["false"])
+            run.evaluations += len(net.emitted["client"]) + len(net.emitted["server"])
+            if stats["true"] and stats["false"]:
+                run.nt((label, stats["true"], stats["false"]))
+    run.compare("conn_run_from", cases, impl, mod)
+
+
 def stale_ack_after_wrap(run):
     """known finding D22 reproduced on the real endpoints, every run: an ack header built when the peer's newest
     accepted datagram was m names the wire numbers of m-32..m, which are also the wire numbers of m+65535-32..m+65535.
@@ -546,6 +599,7 @@ def run(run):
         overtaken_sessions(run)
     finally:
         logging.disable(logging.NOTSET)
+    acks_across_wrap(run)
     stale_ack_after_wrap(run)
     directed_d17(run)
     run.rules.append(RULE)
